@@ -950,7 +950,7 @@ func normalizeNumber(s string) string {
 	}
 
 	if dotCount == 0 && commaCount == 1 {
-		if lastComma >= 1 && len(s)-lastComma-1 == 3 {
+		if lastComma >= 1 && len(s)-lastComma-1 == 3 && allDigits(s[lastComma+1:]) {
 			hasNonZero := false
 			for i := 0; i < lastComma; i++ {
 				if s[i] != '0' && s[i] != '-' {
@@ -966,7 +966,7 @@ func normalizeNumber(s string) string {
 	}
 
 	if dotCount == 1 && commaCount == 0 {
-		if lastDot >= 1 && len(s)-lastDot-1 == 3 {
+		if lastDot >= 1 && len(s)-lastDot-1 == 3 && allDigits(s[lastDot+1:]) {
 			hasNonZero := false
 			for i := 0; i < lastDot; i++ {
 				if s[i] != '0' && s[i] != '-' {
@@ -1015,6 +1015,17 @@ func normalizeNumber(s string) string {
 	}
 
 	return b.String()
+}
+
+// allDigits reports whether s consists of digits only: three characters after a
+// single mark are a digit group only then ("5E2" in 1.5E2 is not one).
+func allDigits(s string) bool {
+	for i := 0; i < len(s); i++ {
+		if s[i] < '0' || s[i] > '9' {
+			return false
+		}
+	}
+	return true
 }
 
 func removeSeparator(s string, sep byte) string {
